@@ -321,7 +321,8 @@ func defaultMarshaller[T proto.Message](r *http.Request, t T) ([]byte, error) {
 }
 
 func defaultError(w http.ResponseWriter, code int, message string) {
-	w.WriteHeader(code)
+	body, _ := json.Marshal(message)
 	w.Header().Set("Content-Type", "application/json")
-	w.Write([]byte(strconv.Quote(message)))
+	w.WriteHeader(code)
+	w.Write(body)
 }
